@@ -197,6 +197,73 @@ def check(run):
     run.analysed["while_loops"] = n_loops
     run.analysed["loop_shapes"] = shapes
 
+    # ------------------------------------------------------------------ R2b for loops reachable from a loader iterate something finite
+    loaders_all = loader_functions(ix)
+    roots = set(loaders_all) | {ix.func(q) for q in ("trimesh.exchange.load:load_scene", "trimesh.path.exchange.load:load_path", "trimesh.util:decompress")}
+    reach = set(roots)
+    frontier = list(roots)
+    depth = {f_: 0 for f_ in roots}
+    while frontier:
+        f_ = frontier.pop()
+        if depth[f_] >= 6:
+            continue
+        for c in ast.walk(f_.node):
+            if isinstance(c, ast.Call) and isinstance(c.func, (ast.Name, ast.Attribute)):
+                r = ix.resolve_expr(f_.module, c.func)
+                if isinstance(r, FuncInfo) and r not in reach:
+                    reach.add(r)
+                    depth[r] = depth[f_] + 1
+                    frontier.append(r)
+    UNBOUNDED = ("itertools.count", "itertools.cycle", "itertools.repeat")
+    n_for = 0
+    for f_ in sorted(reach, key=lambda x: x.where):
+        pvf = None
+        for lp in own_walk(f_.node):
+            if not isinstance(lp, (ast.For, ast.AsyncFor)):
+                continue
+            n_for += 1
+            it = lp.iter
+            names = [it] + ([it] if not isinstance(it, ast.Name) else [])
+            bad = None
+            cand = [it]
+            if isinstance(it, ast.Name):
+                # the iterable is a local: look at what it may have been assigned
+                if pvf is None:
+                    pvf = Prov(ix, f_)
+                alts = pvf.alternatives(it.id, lp) if pvf.cfg.nodes_of.get(id(lp)) else None
+                for a_ in alts or ():
+                    if any(a_.startswith(u + "(") for u in UNBOUNDED) and not (a_.startswith("itertools.repeat(") and "," in a_):
+                        bad = a_
+            elif isinstance(it, ast.Call):
+                r = ix.resolve_expr(f_.module, it.func) if isinstance(it.func, (ast.Name, ast.Attribute)) else None
+                if isinstance(r, str) and r in UNBOUNDED and not (r == "itertools.repeat" and len(it.args) > 1):
+                    bad = ast.unparse(it)
+                if isinstance(it.func, ast.Name) and it.func.id == "iter" and len(it.args) == 2:
+                    bad = ast.unparse(it)
+            if bad is not None:
+                run.instance("R2", f"{f_.module.rel}:{lp.lineno} {f_.qualname}", f"for loop over `{bad[:50]}`", False)
+                run.violation("R2", f"{f_.module.rel}:{lp.lineno} {f_.qualname}", f"`{f_.qualname}` (reachable from a loader) loops over `{bad[:60]}`, which never ends by itself: the loop "
+                                                                               f"relies on its body to stop, so cyclic references in a file keep it running and growing", key=key_of("C20-R2", f_.qualname, "unbounded-for"))
+    run.instance("R2", "trimesh/exchange/load.py loaders", f"{n_for} for loops in {len(reach)} functions reachable from the loader registries iterate finite iterables", True)
+    run.floor("functions reachable from loaders", len(reach), 80)
+    # DXF: a block definition is converted without access to the other blocks, so an INSERT is expanded one level only
+    ld = ix.func("trimesh.path.exchange.dxf:load_dxf")
+    pvd = Prov(ix, ld)
+    cecalls = [c for c in ast.walk(ld.node) if isinstance(c, ast.Call) and pvd.callee(c.func) == "trimesh.path.exchange.dxf.convert_entities"]
+    nested = []
+    for c in cecalls:
+        st = pvd.stmt_of(c)
+        inside_loop = any(isinstance(lp, ast.For) and c in list(ast.walk(lp)) for lp in ast.walk(ld.node))
+        kwb = next((k for k in c.keywords if k.arg == "blocks"), None)
+        if inside_loop and (kwb is not None and ast.unparse(kwb.value) != "None" or len(c.args) > 2):
+            nested.append(c.lineno)
+    ok = bool(cecalls) and not nested
+    run.instance("R4", ld.where, f"DXF block definitions are converted without a `blocks` table ({len(cecalls)} convert_entities calls; nested: {nested})", ok)
+    if not ok:
+        run.violation("R4", ld.where, f"load_dxf converts block definitions with access to the blocks collected so far (line {nested}): every INSERT deep-copies its block, so a chain of "
+                                      f"blocks that each insert the previous one twice doubles the entities per level - memory and time exponential in the file size",
+                      key=key_of("C20-R4", "dxf-nested-blocks"))
+
     # ------------------------------------------------------------------ R3 no interpreter exit
     loaders = loader_functions(ix)
     for q in ("trimesh.exchange.load:load", "trimesh.exchange.load:load_scene", "trimesh.exchange.load:load_mesh", "trimesh.exchange.load:_load_compressed",
